@@ -64,7 +64,8 @@ where
 
 /// VERIF_SCALE (percent) lets a caller shrink or grow every generated count uniformly.
 pub fn scale(n: u64) -> u64 {
-    let pct: u64 = std::env::var("VERIF_SCALE").ok().and_then(|s| s.parse().ok()).unwrap_or(100);
+    // the per-sub-check counts in the property modules are multiplied by 3 unless VERIF_SCALE says otherwise
+    let pct: u64 = std::env::var("VERIF_SCALE").ok().and_then(|s| s.parse().ok()).unwrap_or(300);
     (n * pct / 100).max(1)
 }
 
